@@ -16,9 +16,11 @@ CHECKS = {
             'bounded-exhaustive BFS over graph histories x recipes on the real '
             'quantize(), structural invariant + LiteRT run per state',
             'Every complete graph history up to the depth bound (all 21 '
-            'supported ops + unsupported ops at depth<=2, representative '
-            'classes at depth 3-4) is quantized under every recipe of the '
-            'recipe alphabet; each returned model is parsed independently, '
+            'supported ops + unsupported ops at depth<=2 incl. extended attribute '
+            'variants at depth 1, representative classes at depth 3-4, '
+            'two-signature models, the op-replacement/blockwise mode on rank-3 '
+            'FULLY_CONNECTED) is quantized under every recipe of the recipe '
+            'alphabet; each returned model is parsed independently, '
             'checked for index ranges, unique names, single producer, valid '
             'execution order and I/O/signature references, then allocated '
             'and invoked in LiteRT in a journaled worker process so aborts '
@@ -32,7 +34,9 @@ CHECKS = {
 CHECKS.update({
     'C02': (E1, 'bounded-exhaustive BFS over graph histories x recipes; skeleton '
             'extraction (contract inserted Q/DQ) compared with the input IR',
-            'Same universe as C01. For every returned model the inserted '
+            'Same universe as C01 (minus the blockwise mode, which the property '
+            'excludes) plus signature entries / subgraph I/O listed in the '
+            'opposite order and two-signature models. For every returned model the inserted '
             'QUANTIZE/DEQUANTIZE ops are contracted and the result must equal '
             'the input graph exactly (operators, order, packed options, operand '
             'roots, tensor index/name/shape), plus the subgraph I/O and '
@@ -57,7 +61,8 @@ CHECKS.update({
             'oracle: no exception',
             'Every complete graph history within the bounds (all 21 supported '
             'ops + unsupported ops at depth<=2, class representatives at depth '
-            '3-4, exported intermediates) is calibrated and quantized with each '
+            '3-4, exported intermediates, reversed signature and I/O order, '
+            'two-signature models) is calibrated and quantized with each '
             'shipped recipe file and the recipe helper, loaded unchanged; any '
             'exception from load/calibrate/quantize is a violation.',
             'Float run of the graph on the calibration input must be finite '
@@ -106,20 +111,23 @@ CHECKS.update({
             'combinations incl. refused ones, 4 loads) are replayed on fresh '
             'objects; at every state the exported rule list and a 25-entry '
             'resolution table equal the reference model, queries are pure, '
-            'refused calls do not change state, and states reached through '
-            'different histories resolve identically.',
+            'refused calls do not change state, states reached through different '
+            'histories resolve identically, and the table is also queried '
+            'between the calls of a history (stale caches).',
             'The accept/refuse answer of the support check is an input of the '
             'reference model. Longer histories are not covered.', '7/C11'),
     'C12': (E2, 'explicit-state search over the recipe state space; at every state '
             'JSON round trip + reload into a fresh Quantizer, differential '
             'comparison incl. quantized bytes',
-            'At every reachable recipe state (depth <=3 quick / <=4 thorough) the '
+            'At every reachable recipe state (depth <=3 quick / <=4 thorough; configs '
+            'built with enum-valued fields as a Python user does, incl. the '
+            'blockwise mode) the '
             'exported recipe reloads without exception, re-exports equally and '
             'resolves identically; for depth <=2 three fixed models quantize to '
             'byte-identical output from original and reloaded recipe, also '
             'through QuantizationResult.save(); every shipped recipe file loads '
             'and default files re-export to themselves.',
-            'Byte comparison uses three fixed models and one calibration result.',
+            'Byte comparison uses four fixed models and one calibration result each.',
             '7/C12'),
 })
 CHECKS.update({
@@ -132,7 +140,10 @@ CHECKS.update({
             'result equals the reference EMA over my own per-sample interpreter '
             'reads (<=2 ulp), constants equal true min/max, every split history '
             'equals the single pass bitwise, the previous result passed in is '
-            'unchanged, and the key set equals the tensors of selected operators.',
+            'unchanged, and the key set equals the tensors of selected operators; '
+            'sessions also run on one re-used Quantizer, calibrate() without a '
+            'previous result must restart, and two-signature models are '
+            'calibrated signature after signature in both orders.',
             'Trusted: own LiteRT interpreter reads; reference EMA in float32.',
             '7/C09'),
     'C14': (E2, 'explicit enumeration of all interleavings of API calls (bounded '
@@ -193,7 +204,8 @@ CHECKS.update({
             'path; external buffers must be 16-byte aligned, after the '
             'flatbuffer, in bounds, disjoint and byte-equal to the embedded '
             'ones; normalised object trees re-pack identically; LiteRT loads '
-            'both with identical outputs.',
+            'both with identical outputs. The large path runs on a Quantizer '
+            'that already serialized the model under another recipe.',
             'Hook AI_EDGE_QUANTIZER_VERIF_LARGE_MODEL_THRESHOLD only selects the '
             'existing branch. Buffer sizes are small (2..256 bytes).', '7/C16'),
 })
@@ -234,7 +246,8 @@ CHECKS.update({
             'constant decode, averaged over samples; self-comparison is 0 for '
             'every tensor of the model; metric laws hold.',
             'Runtime temporaries reported in addition are not constrained by the '
-            'property. Single-signature models.', '7/C18'),
+            'property. Every signature of two-signature models is covered; metric '
+            'laws are swept over pairs of small arrays incl. non-finite values.', '7/C18'),
     'C19': (E1, 'exhaustive enumeration of ordered pairs/triples of subgraphs x '
             'recipes; differential comparison multi-subgraph vs stand-alone',
             'Ordered pairs of graphs (all one-operator graphs, all two-operator '
